@@ -3,12 +3,17 @@ from __future__ import annotations
 
 import json
 
+from translator import c07 as tr
+
 from .. import core
-from ..core import Broken, Ctx, Violation
+from ..core import Broken, Ctx, TranslationError, Violation
 
 PROP_FILE = "Properties/C07.v"
 
 TRUSTED = [
+    "translator/c07.py (python ast -> Gen_C07.v `src_cfg`): which rows create_params of the three modes builds, how "
+    "_run_pipelines_array_to_datatree binds the tuple to the keys, which mapping it zips, whether "
+    "_get_short_dimension_names_new / _get_parameter_types keep the order of the enabled steps; fails closed",
     "correspondence harness: harness/props/c07.py generators, harness/drivers/c07.py, probes/verif_probes_c07.py "
     "(base-16 code of the received arguments in the pixel bucket; decoded by the driver)",
     "modelled, not verified: pandas MultiIndex.from_product/to_xarray (levels sorted, cell = its own label, repeated "
@@ -61,9 +66,10 @@ def gen_enc(r, mode, nparams, flavour=""):
     case = dict(kind="enc", mode=mode, sleep_scale=r.choice([0.0, 0.03, 0.05, 0.08]), sleep_mult=r.randrange(1, 5))
     if mode == "custom":
         ps = []
+        one_at = r.randrange(nparams)
         for k, vec in enumerate(vecs):
             w = None if not vec else vec
-            if flavour == "one_list" and k == 0:
+            if flavour == "one_list" and (k == one_at or r.random() < 0.3):
                 w = 1
             ps.append(dict(w=w))
         ncols = sum(1 if p["w"] is None else p["w"] for p in ps)
@@ -80,9 +86,10 @@ def gen_enc(r, mode, nparams, flavour=""):
         case["first_sum"] = sum(first)
     else:
         ps = []
+        dup_at = r.randrange(nparams)
         for k, vec in enumerate(vecs):
             n = r.randrange(1, 5) if nparams > 1 else r.randrange(2, 6)
-            ps.append(dict(values=gen_values(r, vec, n, dup=(flavour == "dup" and k == 0),
+            ps.append(dict(values=gen_values(r, vec, n, dup=(flavour == "dup" and (k == dup_at or r.random() < 0.3)),
                                              sorted_=(r.random() < 0.3))))
         case.update(params=ps, defaults=[([r.randrange(0, 13) for _ in range(v)] if v else r.randrange(0, 13))
                                          for v in vecs])
@@ -97,43 +104,165 @@ def gen_enc(r, mode, nparams, flavour=""):
     return case
 
 
+def partitions(n):
+    """all set partitions of positions 0..n-1 as restricted-growth strings: p[k] = group of parameter k"""
+    out = []
+
+    def rec(prefix, mx):
+        if len(prefix) == n:
+            out.append(list(prefix))
+            return
+        for g in range(mx + 2):
+            rec(prefix + [g], max(mx, g))
+    rec([0], 0)
+    return out
+
+
+def gen_encs(r, mode, pattern, vector="mix", share=True):
+    """parameters whose SHORT names collide according to `pattern` (same group = same argument name, in different
+    model instances); every parameter's received value is recorded separately by the probe instance that owns it"""
+    n = len(pattern)
+    layout, used = [], set()
+    for k, g in enumerate(pattern):
+        arg = "abcd"[g]
+        cands = [j for j in range(k + 1) if (j, arg) not in used]
+        j = k if (not share or r.random() < 0.6) else r.choice(cands)
+        used.add((j, arg))
+        layout.append([j, arg])
+    # model names are labels: rename them at random so that the keys are NOT listed in alphabetical order
+    ren = list(range(n))
+    r.shuffle(ren)
+    layout = [[ren[j], arg] for j, arg in layout]
+    vecs = []
+    for k in range(n):
+        if vector == "none":
+            vecs.append(0)
+        elif vector == "all":
+            vecs.append(r.choice([1, 2, 3]))
+        else:
+            vecs.append(r.choice([0, 0, 0, 1, 2, 3]))
+    if mode == "sequential" and any(vecs):
+        # sequential mode merges the runs along 'id': vector parameters must all have one length
+        w = max(vecs)
+        vecs = [w if v else 0 for v in vecs]
+    # sometimes one parameter with a name of its own is a setting of the DETECTOR (key 'detector.environment.
+    # temperature', values 1..12) instead of a model argument: same binding, another kind of key
+    tslot = None
+    singles = [k for k, g in enumerate(pattern) if pattern.count(g) == 1]
+    if n >= 2 and singles and r.random() < 0.3:
+        tslot = r.choice(singles)
+        vecs[tslot] = 0
+        layout[tslot] = [layout[tslot][0], "T"]
+    case = dict(kind="encs", mode=mode, layout=layout, pattern="".join(map(str, pattern)),
+                sleep_scale=r.choice([0.0, 0.02, 0.04]), sleep_mult=r.randrange(1, 5))
+    if mode == "custom":
+        ps = [dict(w=(None if not v else v)) for v in vecs]
+        ncols = sum(1 if p["w"] is None else p["w"] for p in ps)
+        rows, seen = [], set()
+        for _ in range(r.randrange(1, 5)):
+            row = [r.randrange(0, 13) for _ in range(ncols)]
+            if tuple(row) not in seen:
+                seen.add(tuple(row))
+                rows.append(row)
+        if tslot is not None:
+            col = sum(1 if p["w"] is None else p["w"] for p in ps[:tslot])
+            for row in rows:
+                row[col] = 1 + row[col] % 12
+        case.update(params=ps, table=rows, defaults=[(0 if p["w"] is None else [0] * p["w"]) for p in ps])
+        if tslot is not None:
+            case["defaults"][tslot] = 5
+    else:
+        cap = {1: 4, 2: 3, 3: 3, 4: 2}[n]
+        ps = [dict(values=gen_values(r, v, r.randrange(1, cap + 1), sorted_=(r.random() < 0.3),
+                                     dup=(mode == "product" and r.random() < 0.2))) for v in vecs]
+        if all(len(p["values"]) == 1 for p in ps):
+            k = r.randrange(n)
+            ps[k] = dict(values=gen_values(r, vecs[k], 2))
+        case.update(params=ps, defaults=[([r.randrange(0, 13) for _ in range(v)] if v else r.randrange(0, 13))
+                                         for v in vecs])
+        if tslot is not None:
+            vals = sorted({1 + v % 12 for v in ps[tslot]["values"]}, key=lambda v: r.random())
+            ps[tslot] = dict(values=vals)
+            case["defaults"][tslot] = 1 + case["defaults"][tslot] % 12
+    if tslot is not None:
+        case["detector_key"] = tslot
+    return case
+
+
 def pick_scheds(r, k):
     s = [SCHEDS[i] for i in sorted(r.sample(range(len(SCHEDS)), k))]
     return s
 
 
+def corpus_cases():
+    import pathlib
+
+    d = pathlib.Path(__file__).resolve().parent.parent / "corpus" / "C07"
+    out = []
+    for f in sorted(d.glob("*.json")):
+        c = json.loads(f.read_text())
+        c.setdefault("scheds", [SCHEDS[0]])
+        c["corpus"] = f.stem
+        out.append(c)
+    return out
+
+
 def gen_cases(ctx: Ctx):
     r = ctx.rng("cases")
-    cases = []
-    # the witnesses of the refuted statements first (DESIGN section 7)
-    cases.append(dict(kind="enc", mode="sequential", params=[dict(values=[1, 2, 3]), dict(values=[10, 12])],
-                      defaults=[0, 0], scheds=[SCHEDS[0]], sleep_scale=0.0))
-    cases.append(dict(kind="enc", mode="product", params=[dict(values=[1, 1, 2])], defaults=[0], scheds=[SCHEDS[0]],
-                      sleep_scale=0.0))
-    cases.append(dict(kind="enc", mode="custom", params=[dict(w=1), dict(w=None)], table=[[5, 6], [7, 8]],
-                      defaults=[[0], 0], scheds=[SCHEDS[0]], sleep_scale=0.0))
+    # the formerly failing inputs first (defects repaired in round 2; DESIGN section 7) + minimised seeded misses
+    cases = corpus_cases()
+    ncorpus = len(cases)
     n_enc = ctx.budget(44, 220)
     plan = []
     for mode in ("product", "custom", "sequential"):
         for npar in (1, 2, 3):
             plan.append((mode, npar, ""))
-    plan += [("product", 2, "dup"), ("custom", 2, "one_list"), ("sequential", 1, "vec")]
+    plan += [("product", 2, "dup"), ("custom", 2, "one_list"), ("sequential", 1, "vec"), ("product", 3, "dup"),
+             ("custom", 3, "one_list"), ("product", 1, "dup")]
     k = 0
-    while len(cases) < 3 + n_enc:
+    while len(cases) < ncorpus + n_enc:
         mode, npar, fl = plan[k % len(plan)] if k < 2 * len(plan) else (
-            r.choice(["product", "product", "custom", "sequential"]), r.randrange(1, 4), "")
+            r.choice(["product", "product", "custom", "sequential"]), r.randrange(1, 4), r.choice(["", "", "dup", "one_list"]))
         k += 1
         c = gen_enc(r, mode, npar, fl)
         c["scheds"] = pick_scheds(r, 2 if ctx.quick else 3)
-        if mode == "sequential" and npar >= 2 or fl in ("dup", "one_list"):
-            c["scheds"] = c["scheds"][:1]
         c["outputs"] = (k % 3 == 0)
         cases.append(c)
+    # parameters whose short names collide (dimension names '<model>.<argument>'): every position pattern
+    # (set partition of the parameter positions) for 1..4 parameters; modes rotate with the seed in the quick tier
+    pats = [p for n in (1, 2, 3, 4) for p in partitions(n)]
+    modes3 = ["product", "custom", "sequential"]
+    rot = r.randrange(3)
+    for i, pat in enumerate(pats):
+        collide = len(set(pat)) < len(pat)
+        for mi, mode in enumerate(modes3):
+            if ctx.quick and not (mi == (i + rot) % 3 or (collide and len(pat) == 3 and mi == (i + rot + 1) % 3)):
+                continue
+            for rep in range(1 if ctx.quick else 2):
+                c = gen_encs(r, mode, pat, vector=("mix" if rep == 0 else "all"))
+                c["scheds"] = pick_scheds(r, 1 if ctx.quick else 2)
+                c["outputs"] = ((i + mi + rep) % 3 == 0)
+                cases.append(c)
+    if not ctx.quick:
+        # exhaustive small scope: every shape of a product space with 1..3 parameters of 1..3 values, files on
+        # (file index = row-major rank of the cell for every small shape), threaded
+        import itertools
+        for n in (1, 2, 3):
+            for shape in itertools.product((1, 2, 3), repeat=n):
+                ps = [dict(values=gen_values(r, 0, k)) for k in shape]
+                cases.append(dict(kind="enc", mode="product", params=ps, defaults=[0] * n, outputs=True,
+                                  sleep_scale=0.02, sleep_mult=r.randrange(1, 5),
+                                  scheds=[dict(scheduler="threads", workers=4)]))
     # process pool (slow to start): a few cases
     for j in range(ctx.budget(2, 8)):
         c = gen_enc(r, ["product", "custom"][j % 2], 2, "")
         c["scheds"] = [PROC]
         c["outputs"] = (j % 2 == 0)
+        cases.append(c)
+    for j in range(ctx.budget(1, 6)):
+        c = gen_encs(r, modes3[(j + rot) % 3], r.choice([q for q in pats if len(q) == 3 and len(set(q)) == 2]))
+        c["scheds"] = [PROC]
+        c["outputs"] = (j % 2 == 1)
         cases.append(c)
     # seeded-stochastic pipelines: forced witness schedule and natural interleavings
     for j in range(ctx.budget(3, 8)):
@@ -150,6 +279,12 @@ def gen_cases(ctx: Ctx):
     for j in range(ctx.budget(3, 10)):
         cases.append(dict(kind="islands", n=r.randrange(3, 7), pop=r.randrange(5, 8), seed=r.randrange(1, 10 ** 6),
                           scale=0.004))
+    # ... with the dask batch fitness evaluator creating the populations, under several schedulers / worker counts,
+    # followed by one evolution of every island (DaskIsland): seeds, first fitness and champions per island
+    for j in range(ctx.budget(3, 10)):
+        cases.append(dict(kind="islands", n=r.randrange(2, 5), pop=r.randrange(7, 10), seed=r.randrange(1, 10 ** 6),
+                          scale=0.002, bfe=True, chunk=r.choice([None, 1, 2, 3]), evolve=True, generations=2,
+                          scheds=[SCHEDS[0], dict(scheduler="threads", workers=[2, 4, 16][j % 3])]))
     for j in range(ctx.budget(3, 10)):
         cases.append(dict(kind="bfe", n=r.randrange(3, 12), seed=r.randrange(1, 10 ** 6),
                           chunk=r.choice([None, 1, 2, 3, 5]), scale=0.003, scheds=pick_scheds(r, 2)))
@@ -178,7 +313,7 @@ def ccell(c) -> str:
 
 
 def cmode(case) -> str:
-    if case["kind"] != "enc":
+    if case["kind"] not in ("enc", "encs"):
         return "(Product nil)"
     if case["mode"] == "product":
         return "(Product " + core.clist(core.clist(cpval(v) for v in p["values"]) for p in case["params"]) + ")"
@@ -197,9 +332,14 @@ def expand(case, obs):
         def cells(lst):
             if isinstance(lst, dict):
                 return None
-            return [dict(label=[k], data=[e["seed"], e["f0"]], mem=0) for k, e in enumerate(lst)]
-        s, p = cells(obs["seq"]), cells(obs["par"])
-        out.append((dict(case=case, sched="thread-pool"), s, None if p is None else ([len(p)], p), None, obs))
+            return [dict(label=[k], data=[e["seed"], e["f0"]] + ([e["champ_f"], e["champ_x"]] if "champ_f" in e else []),
+                         mem=0) for k, e in enumerate(lst)]
+        s = cells(obs["seq"])
+        scheds = case.get("scheds") or [None]
+        for sched, par in zip(scheds, obs.get("pars") or [obs["par"]]):
+            p = cells(par)
+            out.append((dict(case=case, sched="thread-pool" + ("+" + sname(sched) if sched else "")), s,
+                        None if p is None else ([len(p)], p), None, dict(seq=obs["seq"], par=par)))
         return out
     if case["kind"] == "bfe":
         s = [dict(label=[k], data=[v], mem=0) for k, v in enumerate(obs["seq"])]
@@ -235,15 +375,15 @@ def emit_case(sub) -> str:
         dk = "(Some (" + core.clist(core.cnat(n) for n in p[0]) + ", " + core.clist(ccell(c) for c in p[1]) + "))"
     fl = "None" if files is None else "(Some " + core.clist(
         f"({core.cnat(i) if 0 <= i < 5000 else '4999%nat'}, {cparams(d)})" for i, d in files) + ")"
-    return (f"(mkCase {cmode(case)} {core.cbool(case['kind'] == 'enc')} {seq} {dk} {fl})")
+    return (f"(mkCase {cmode(case)} {core.cbool(case['kind'] in ('enc', 'encs'))} {seq} {dk} {fl})")
 
 
 def emit_file(subs) -> str:
     body = ";\n  ".join(emit_case(s) for s in subs)
     return ("From Coq Require Import ZArith List.\nFrom PyxelV Require Import Model.Parallel.\n"
-            "Import ListNotations.\n"
+            "From PyxelGen Require Import Gen_C07.\nImport ListNotations.\n"
             f"Definition cases : list par_case := [\n  {body}\n].\n"
-            "Eval vm_compute in mismatches cases.\nEval vm_compute in violations cases.\n")
+            "Eval vm_compute in mismatches_cfg src_cfg cases.\nEval vm_compute in violations cases.\n")
 
 
 # ------------------------------------------------------------------------------------------ classification
@@ -254,6 +394,8 @@ def classify(sub, is_mismatch):
     case, sched = desc["case"], desc["sched"]
     kind = case["kind"]
     if kind == "islands":
+        if case.get("evolve"):
+            return "calibration_outcome", dict(clause="calibration_outcome", scheduler=sched)
         return "island_order", dict(clause="island_order")
     if kind == "bfe":
         return "bfe", dict(clause="bfe", scheduler=sched)
@@ -274,6 +416,8 @@ def classify(sub, is_mismatch):
     sig = dict(clause="params_agree", mode=mode, **{"class": cls})
     if cls == "other":
         sig["scheduler"] = sched
+        if kind == "encs":
+            sig["short_names"] = "collide" if len(set(case["pattern"])) < len(case["pattern"]) else "distinct"
         if files is not None and s is not None and p is not None:
             sig["files"] = True
     return "params_agree", sig
@@ -319,6 +463,10 @@ def correspondence(ctx: Ctx, cases, tag="c"):
     return subs, mism, viol
 
 
+def ncell_of(p):
+    return len(p[1]) if p else 0
+
+
 def account(ctx: Ctx, subs):
     seen = set()
     for desc, s, p, files, raw in subs:
@@ -326,7 +474,29 @@ def account(ctx: Ctx, subs):
         ctx.count("evaluations", (len(s) if s else 0) + (len(p[1]) if p else 0))
         ctx.dist("kind", c["kind"])
         ctx.dist("scheduler", desc["sched"])
-        if c["kind"] in ("enc", "draw"):
+        if c["kind"] == "encs":
+            ctx.dist("short-name pattern", f"{len(c['pattern'])}:{c['pattern']}")
+            ctx.dist("collision/mode", f"{'collide' if len(set(c['pattern'])) < len(c['pattern']) else 'distinct'}/{c['mode']}")
+        if c["kind"] in ("enc", "encs"):
+            ps = c["params"]
+            if c["mode"] == "custom":
+                ctx.dist("custom widths", "/".join("s" if q["w"] is None else str(q["w"]) for q in ps))
+                ctx.dist("one-element list declared", any(q["w"] == 1 for q in ps))
+            else:
+                ctx.dist("vector-valued parameters", sum(1 for q in ps if q["values"] and isinstance(q["values"][0], list)))
+                ctx.dist("a list repeats a value", any(len({json.dumps(v) for v in q["values"]}) < len(q["values"]) for q in ps))
+                ctx.dist("a list is unsorted", any(q["values"] != sorted(q["values"]) for q in ps))
+            ctx.dist("cells in the parallel result", min(ncell_of(p), 20))
+        if c["kind"] == "encs":
+            pat = c["pattern"]
+            # a group with >= 2 members one of which is listed after a parameter of another group
+            shaped = any(pat.count(g) >= 2 and any(pat[i] != g for i in range(max(k for k, x in enumerate(pat) if x == g)))
+                         for g in set(pat))
+            ctx.dist("colliding name listed after another parameter", shaped)
+            keys = [f"m{j}.{a}" for j, a in c["layout"]]
+            ctx.dist("keys listed in alphabetical order", keys == sorted(keys))
+            ctx.dist("one key is a detector setting", "detector_key" in c)
+        if c["kind"] in ("enc", "encs", "draw"):
             ctx.dist("mode/nparams", f"{c['mode']}/{len(c['params'])}")
             ctx.dist("outputs", bool(files is not None))
         ncell = len(p[1]) if p else 0
@@ -335,16 +505,43 @@ def account(ctx: Ctx, subs):
     ctx.cov["distinct_nontrivial"] = ctx.cov.get("distinct_nontrivial", 0) + len(seen)
 
 
+def translate_leg(ctx: Ctx) -> dict:
+    try:
+        text = tr.translate(ctx.repo)
+        ctx.cov["translated_rows"] = tr.rows(ctx.repo)
+    except TranslationError as ex:
+        ctx.broken.append(Broken("translation", "translator/c07.py (how the dask path builds and binds the parameter "
+                                 "array)", str(ex)))
+        ctx.log(f"translation failed (fail closed): {ex}")
+        text = tr.FALLBACK
+    return {"Gen_C07.v": text}
+
+
+def ensure_gen(ctx: Ctx):
+    """(replay mode) write + compile Gen_C07.v so that case files can import it"""
+    gd = ctx.build / "gen"
+    gd.mkdir(parents=True, exist_ok=True)
+    try:
+        text = tr.translate(ctx.repo)
+    except TranslationError:
+        text = tr.FALLBACK
+    (gd / "Gen_C07.v").write_text(text)
+    core.ensure_lib(ctx, targets=["theories/Model/Parallel.vo"])
+    core.coqc(ctx, gd / "Gen_C07.v", [(gd, "PyxelGen")])
+
+
 def run(ctx: Ctx):
     ctx.trusted += TRUSTED
     ctx.assumptions += [
-        "parameter keys are distinct; values are numbers or equal-length number vectors (no mixed levels)",
+        "parameter keys are distinct (model arguments, optionally one detector setting); values are numbers or "
+        "equal-length number vectors (no mixed levels); sweeps of observation.readout.times are C02's subject "
+        "(C02-ObsTimes: the non-dask path ignores them)",
         "each run is a function of (copy of the processor, parameter values) -- C06; checked here only through the "
         "trace counter the probe leaves on the detector it is given",
         "dask executes every chunk once and places it by index (not proved; sampled under the schedulers listed)",
         "the thread-RNG defect is exhibited on the real code only by the forced schedule (barrier probes), not by the theorem",
     ]
-    core.proof_leg(ctx, {}, PROP_FILE)
+    core.proof_leg(ctx, translate_leg(ctx), PROP_FILE)
     cases = gen_cases(ctx)
     subs, mism, viol = correspondence(ctx, cases)
     account(ctx, subs)
@@ -387,6 +584,15 @@ def search(ctx: Ctx):
                 c["scheds"] = [SCHEDS[0], SCHEDS[3]]
                 c["outputs"] = True
                 cases.append(c)
+    # short names that collide, every position pattern of 3 and 4 parameters, all modes (binding of values to keys)
+    for pat in [q for n in (2, 3, 4) for q in partitions(n) if len(set(q)) < len(q)]:
+        for mode in ("product", "custom", "sequential"):
+            c = gen_encs(r, mode, pat, vector="mix")
+            c["scheds"] = [SCHEDS[0]]
+            c["outputs"] = (mode == "product")
+            cases.append(c)
+    # the inputs of the repaired defects (a regression is reported with a concrete input)
+    cases += corpus_cases()
     subs, mism, viol = correspondence(ctx, cases, tag="s")
     for sub, is_m in viol:
         ctx.violations.append(to_violation(sub, is_m))
@@ -408,7 +614,7 @@ def replay(ctx: Ctx, rp: dict) -> int:
     print("implementation now returns:", json.dumps(obs, default=str)[:3000])
     if "crash" in obs or "driver_error" in obs:
         return 1
-    core.ensure_lib(ctx, targets=["theories/Model/Parallel.vo"])
+    ensure_gen(ctx)
     subs = expand(c, obs)
     ok, evals, se = core.coq_eval(ctx, "replay", emit_file(subs))
     bad = (not ok) or core.parse_int_list(evals[1]) != []
@@ -418,24 +624,34 @@ def replay(ctx: Ctx, rp: dict) -> int:
 
 META = dict(
     level_text=(
-        "Coq theorems (no axioms) over an executable model of the parallel path: the parameter array built by "
-        "create_params of each mode vs. the sequential generators (product: equal as multisets, one cell per run, cell "
-        "at rank(mi) holds the values its coordinates name, for any number of parameters; custom: identical rows; "
-        "sequential mode and two corner cases REFUTED with witnesses, strongest restrictions proved), assembly "
-        "independent of EVERY completion order (slots distinct, runs pure), the file index a bijection for any shape, "
-        "island k created from seed k under any completion order, DaskBFE chunking, and an interleaving model of "
-        "save/seed/draw/restore on one shared generator (a 2-thread schedule that changes both draws and leaks the "
-        "seed; one worker or one generator per worker always equals the sequential outcome). That the implementation "
-        "behaves like the model is established by correspondence (testing): the same observation run with_dask=False "
-        "and True under synchronous / 1,2,4,16 threads / 2 processes with data-dependent delays, every result entry "
-        "(label, arguments decoded from the data, trace counter), output files vs. index, island seeds, DaskBFE values "
-        "compared inside Coq against the model and against the specification."),
+        "Coq theorems (no axioms) over an executable model of the parallel path whose rows are REGENERATED from the "
+        "source on every run (translator/c07.py -> src_cfg: which rows create_params of the three modes builds, how the "
+        "dask path binds a cell's values to the parameter keys, file index / island order / DaskBFE shapes; fail closed). "
+        "Proved for all inputs: END TO END (C07_parallel_equals_sequential, instantiated with the regenerated rows as "
+        "C07_parallel_equals_sequential_as_coded): for product / sequential / custom mode, any parameter space (repeated "
+        "values, one-element lists, any lengths and defaults), any distinct keys, any run function of the received values "
+        "and EVERY completion order of the tasks, the parallel result and the sequential result are the same label->data "
+        "map; per mode: product cells = sequential runs as a set, no double cell, #cells = prod shape, a permutation when "
+        "no list repeats a value, cell at rank(mi) holds the values its coordinates name; sequential mode: identical run "
+        "list, one parameter at a time with defaults; custom: identical rows; positional binding is right iff the zipped "
+        "mapping iterates in the tuples' order (soundness + necessity); assembly independent of every completion order, "
+        "rank/unrank bijective for any shape, island k created from seed k, DaskBFE chunking; interleaving model of "
+        "save/seed/draw/restore on one shared generator (threads: REFUTED with a witness schedule, open finding; one "
+        "worker or one generator per worker: always the sequential outcome). That the implementation behaves like the "
+        "model is established by correspondence (testing): the same observation run with_dask=False and True under "
+        "synchronous / 1,2,4,16 threads / 2 processes with data-dependent delays, parameter sets whose short names "
+        "collide in every position pattern of 1..4 parameters, every result entry (label, values each run RECEIVED per "
+        "parameter, trace counter, executions counted), output files vs. index, islands (seeds, first fitness, champions "
+        "after an evolution vs. an in-thread reference evolution), DaskBFE values -- compared inside Coq against the "
+        "model and against the specification."),
     level_note=(
-        "Trusted: Coq kernel + vm_compute; the correspondence harness and probes; pandas/xarray/dask/pygmo/"
-        "ThreadPoolExecutor behaviour as modelled (dask computes every chunk once and places it by index: sampled, "
-        "not proved); runs are functions of their own copy (C06). The shared-generator defect is a theorem about the "
-        "model and is exhibited on the real code only by a forced schedule."),
-    technique="Coq proof over executable model (permutation invariance, mixed radix, interleaving semantics) + in-Coq "
-              "correspondence/spec evaluation of sequential vs. parallel runs under several dask schedulers",
+        "Trusted: Coq kernel + vm_compute; translator/c07.py (what it extracts is believed; it fails closed); the "
+        "correspondence harness and probes; pandas/xarray/dask/pygmo/ThreadPoolExecutor behaviour as modelled (dask "
+        "computes every chunk once and places it by index: a hypothesis of the theorems, sampled incl. an execution "
+        "counter, not proved); runs are functions of their own copy (C06). The shared-generator defect is a theorem "
+        "about the model and is exhibited on the real code only by a forced schedule."),
+    technique="Coq proof over executable model regenerated in part from the source (permutation invariance, mixed "
+              "radix, positional binding, interleaving semantics) + in-Coq correspondence/spec evaluation of sequential "
+              "vs. parallel runs under several dask schedulers",
     design_ref="DESIGN.md section 6, C07",
 )
